@@ -64,7 +64,7 @@ def node_pcs(label, pcvars, scalar_pcs=None):
     return out
 
 
-def gen_plans(workdir, mod, cfg, pcvars, scalar_pcs=None, thread_of=None, maxlen=80, workers=4, timeout=300, rng=None):
+def gen_plans(workdir, mod, cfg, pcvars, scalar_pcs=None, thread_of=None, maxlen=80, workers=4, timeout=300, rng=None, with_args=False):
     """dumps the state graph and returns an edge cover as plans [[thread, action, expected-to], ...]"""
     dot = os.path.join(workdir, os.path.splitext(cfg)[0] + ".dot")
     r = vlib.run_tlc(workdir, mod, cfg, workers=workers, timeout=timeout, extra=["-dump", "dot,actionlabels", dot])
@@ -80,7 +80,7 @@ def gen_plans(workdir, mod, cfg, pcvars, scalar_pcs=None, thread_of=None, maxlen
         steps = []
         for (act, args, dst) in p:
             th = thread_of(act, args) if thread_of else (args[0] if args else act)
-            steps.append([th, act, pcs[dst].get(th, "")])
+            steps.append([th, act, pcs[dst].get(th, "")] + (list(args) if with_args else []))
         plans.append({"id": i + 1, "steps": steps})
     st.update({"graph_states": r.distinct, "graph_generated": r.generated})
     return plans, st
